@@ -48,8 +48,8 @@ extern size_t carquet_zstd_compress_bound(size_t src_size);
 
 typedef struct carquet_page_writer {
     carquet_buffer_t values_buffer;      /* Encoded values */
-    carquet_buffer_t def_levels_buffer;  /* Definition levels (RLE) */
-    carquet_buffer_t rep_levels_buffer;  /* Repetition levels (RLE) */
+    carquet_buffer_t def_levels_buffer;  /* Definition levels of the page (raw int16, RLE-encoded at finalize) */
+    carquet_buffer_t rep_levels_buffer;  /* Repetition levels of the page (raw int16, RLE-encoded at finalize) */
     carquet_buffer_t page_buffer;        /* Final page with header */
 
     carquet_physical_type_t type;
@@ -307,16 +307,21 @@ carquet_status_t carquet_page_writer_add_values(
         writer->num_nulls += (num_values - num_non_null);
     }
 
-    /* Encode definition levels */
+    /* Accumulate the levels of this batch. A data page carries exactly one
+     * length-prefixed level block, so the RLE encoding happens once per page
+     * in carquet_page_writer_finalize(), not once per batch. */
     if (writer->max_def_level > 0 && def_levels) {
-        encode_levels(def_levels, num_values, writer->max_def_level,
-                      &writer->def_levels_buffer);
+        carquet_status_t lstatus = carquet_buffer_append(
+            &writer->def_levels_buffer, def_levels,
+            (size_t)num_values * sizeof(int16_t));
+        if (lstatus != CARQUET_OK) return lstatus;
     }
 
-    /* Encode repetition levels */
     if (writer->max_rep_level > 0 && rep_levels) {
-        encode_levels(rep_levels, num_values, writer->max_rep_level,
-                      &writer->rep_levels_buffer);
+        carquet_status_t lstatus = carquet_buffer_append(
+            &writer->rep_levels_buffer, rep_levels,
+            (size_t)num_values * sizeof(int16_t));
+        if (lstatus != CARQUET_OK) return lstatus;
     }
 
     /* Encode values using PLAIN encoding.
@@ -486,15 +491,25 @@ carquet_status_t carquet_page_writer_finalize(
     carquet_buffer_init(&uncompressed);
 
     if (writer->rep_levels_buffer.size > 0) {
-        carquet_buffer_append(&uncompressed,
-                               writer->rep_levels_buffer.data,
-                               writer->rep_levels_buffer.size);
+        carquet_status_t lstatus = encode_levels(
+            (const int16_t*)writer->rep_levels_buffer.data,
+            (int64_t)(writer->rep_levels_buffer.size / sizeof(int16_t)),
+            writer->max_rep_level, &uncompressed);
+        if (lstatus != CARQUET_OK) {
+            carquet_buffer_destroy(&uncompressed);
+            return lstatus;
+        }
     }
 
     if (writer->def_levels_buffer.size > 0) {
-        carquet_buffer_append(&uncompressed,
-                               writer->def_levels_buffer.data,
-                               writer->def_levels_buffer.size);
+        carquet_status_t lstatus = encode_levels(
+            (const int16_t*)writer->def_levels_buffer.data,
+            (int64_t)(writer->def_levels_buffer.size / sizeof(int16_t)),
+            writer->max_def_level, &uncompressed);
+        if (lstatus != CARQUET_OK) {
+            carquet_buffer_destroy(&uncompressed);
+            return lstatus;
+        }
     }
 
     carquet_buffer_append(&uncompressed,
@@ -607,9 +622,10 @@ carquet_status_t carquet_page_writer_finalize(
 
 size_t carquet_page_writer_estimated_size(const carquet_page_writer_t* writer) {
     if (!writer) return 0;
+    /* Levels are held raw (2 bytes each) until the page is finalized */
     return writer->values_buffer.size +
-           writer->def_levels_buffer.size +
-           writer->rep_levels_buffer.size + 64;  /* Header overhead */
+           writer->def_levels_buffer.size / 2 +
+           writer->rep_levels_buffer.size / 2 + 64;  /* Header overhead */
 }
 
 int64_t carquet_page_writer_num_values(const carquet_page_writer_t* writer) {
